@@ -373,9 +373,23 @@ def circuit(qp, rng, g17, gen, wires):
         elif r < 0.93 and n >= 2:
             g = g17.any_gate(qp, rng, wires, ["CNOT", "CRX", "IsingXY", "SWAP", "CZ", "ISWAP", "CRot", "SISWAP"], 2)
             ops.append(qp.adjoint(g) if rng.random() < 0.5 else qp.pow(g, int(rng.integers(2, 4))))
-        elif r < 0.95 and n >= 3:
+        elif r < 0.94 and n >= 3:
             ws = g17.some_wires(rng, wires, 3)
             ops.append(qp.ctrl(g17.any_gate(qp, rng, ws[1:], ["SWAP", "IsingXX", "CRZ", "CNOT", "CZ"], 2), control=ws[0], control_values=[int(rng.integers(2))]))
+        elif r < 0.955 and n >= 2:
+            # nested symbolic forms with non-trivial control values: ctrl(adjoint(U)), ctrl(pow(U)), adjoint(ctrl(U)) (generated rules that
+            # rewrite one nesting into the other must carry the control values along)
+            nc = 1 if n < 3 or rng.random() < 0.5 else 2
+            ws = g17.some_wires(rng, wires, nc + 1)
+            base = g17.gate(qp, rng, g17.pick(rng, ["S", "T", "SX", "RX", "RY", "PhaseShift", "Rot", "Hadamard"]), [ws[-1]])
+            cv = [int(b) for b in rng.integers(0, 2, size=nc)]
+            form = int(rng.integers(3))
+            if form == 0:
+                ops.append(qp.ctrl(qp.adjoint(base), control=ws[:-1], control_values=cv))
+            elif form == 1:
+                ops.append(qp.ctrl(qp.pow(base, int(rng.integers(2, 4))), control=ws[:-1], control_values=cv))
+            else:
+                ops.append(qp.adjoint(qp.ctrl(base, control=ws[:-1], control_values=cv)))
         elif r < 0.97:
             ops.append(qp.GlobalPhase(gen.num.angle(rng)))
         elif n >= 2:
